@@ -65,6 +65,18 @@ Definition spec_one (a : app) (r : request) (raw : list (bytes * bytes)) (after_
 
 Inductive ending := EClosed | EWaiting | EUnspec.   (* closed by the server | waiting for more input | no demand from here on *)
 
+(* nothing is demanded of a request whose body lies outside the grammar; nor - beyond what has been answered so far - of a
+   request whose handler reads PART of a body that is cut short or malformed ([BReadK] on [BodyBad]): whether it gets its
+   bytes and answers, or meets the defect and fails, depends on where the defect lies *)
+Definition body_unspecified_for (a : app) (r : request) (raw : list (bytes * bytes)) (after_head : bytes) : bool :=
+  match rfc_framing raw with
+  | FReject => false
+  | f => match view_body f after_head with
+         | BodyUnspec => true
+         | BodyBad => match hook_of a r, behaviour_of a r with HProceed, BReadK _ => true | _, _ => false end
+         | BodyOk _ _ => false
+         end
+  end.
 Definition body_unspecified (r : request) (raw : list (bytes * bytes)) (after_head : bytes) : bool :=
   match rfc_framing raw with
   | FReject => false
@@ -81,7 +93,7 @@ Fixpoint spec_conn_f (fuel : nat) (a : app) (max_head : nat) (s : bytes) (acc : 
       | _ =>
           match parse_request (firstn max_head s) with
           | Ok r =>
-              if body_unspecified r (raw_fields (firstn max_head s)) (skipn (q_offset r) s) then (acc, EUnspec) else
+              if body_unspecified_for a r (raw_fields (firstn max_head s)) (skipn (q_offset r) s) then (acc, EUnspec) else
               let '(resps, keep, rest) := spec_one a r (raw_fields (firstn max_head s)) (skipn (q_offset r) s) in
               if keep then spec_conn_f fuel' a max_head rest (acc ++ resps) else (acc ++ resps, EClosed)
           | Err EEof =>
